@@ -28,15 +28,27 @@ def settings_fill(path, frame_qual):
                 continue
             filled = False
             for s in path.events:
-                if s.kind == 'store' and s.in_loop and \
-                        cm.is_attr(s.container, e.obj, 'settings') and \
-                        s.key[0] == 'lv' and s.value[0] == 'lv' and \
-                        s.key[1] == s.value[1] and \
-                        s.key[3:] == (0,) and s.value[3:] == (1,):
-                    it = s.key[2]
-                    if it[0] == 'call' and it[1].endswith('.items') and \
-                            cm.attr_chain(it[2][0]) == 'self.local_settings':
-                        filled = True
+                if not (s.kind == 'store' and s.in_loop and
+                        cm.is_attr(s.container, e.obj, 'settings') and
+                        s.key[0] == 'lv'):
+                    continue
+                it = s.key[2]
+                # for k, v in self.local_settings.items(): f.settings[k] = v
+                if s.value[0] == 'lv' and s.key[1] == s.value[1] and \
+                        s.key[3:] == (0,) and s.value[3:] == (1,) and \
+                        it[0] == 'call' and it[1].endswith('.items') and \
+                        cm.attr_chain(it[2][0]) == 'self.local_settings':
+                    filled = True
+                # for k in self.local_settings[.keys()]:
+                #     f.settings[k] = self.local_settings[k]
+                src = it[2][0] if (it[0] == 'call' and
+                                   it[1].endswith('.keys')) else it
+                if len(s.key) == 3 and \
+                        cm.attr_chain(src) == 'self.local_settings' and \
+                        s.value[0] == 'sub' and \
+                        cm.attr_chain(s.value[1]) == 'self.local_settings' \
+                        and s.value[2] == s.key:
+                    filled = True
             out.append((e.obj, filled))
     return out
 
